@@ -177,8 +177,14 @@ type scriptCase struct {
 
 func genScript(r *core.Rand) []scriptStep {
 	var st []scriptStep
-	shape := r.Intn(10)
+	shape := r.Intn(13)
 	switch shape {
+	case 10: // some rows, cancel, and only after the pipeline had time to wind down the next Next
+		st = append(st, scriptStep{Op: "next", N: r.Range(1, 40)}, scriptStep{Op: "cancel"}, scriptStep{Op: "pause", N: r.Range(2, 25)}, scriptStep{Op: "drain"})
+	case 11: // cancel before the first Next, first Next only after the wind-down
+		st = append(st, scriptStep{Op: "cancel"}, scriptStep{Op: "pause", N: r.Range(2, 25)}, scriptStep{Op: "drain"})
+	case 12: // the pipeline finishes (or fills up) unobserved, then cancel, pause, Next
+		st = append(st, scriptStep{Op: "pause", N: r.Range(5, 40)}, scriptStep{Op: "cancel"}, scriptStep{Op: "pause", N: r.Range(1, 10)}, scriptStep{Op: "drain"})
 	case 0: // run to completion
 		st = append(st, scriptStep{Op: "drain"})
 	case 1: // cancel before first Next
@@ -288,6 +294,11 @@ func (p *scriptPlan) decide(c *stores.Call) stores.Action {
 		case 1:
 			act.Delay = -1 // Gosched
 		}
+		if c.Kind == "RClose" && p.rnd.Intn(3) == 0 {
+			// closing a handle can be slow (a broken remote stream): whoever closes it must
+			// have finished before the cursor reports the query finished
+			act.Delay = time.Duration(p.rnd.Range(1000, 6000)) * time.Microsecond
+		}
 	}
 	return act
 }
@@ -357,7 +368,10 @@ func buildScriptWorld(rc *RunCtx, i int) (*scriptWorld, error) {
 			return nil, err
 		}
 	}
-	if i%6 == 5 && (rc.ID == "C23" || rc.Tier == "thorough") {
+	if i%6 == 5 && rc.ID == "C23" {
+		// (C23 only: megabytes of buffers are prohibitively slow under the race detector on this
+		// machine - one 20 MiB buffer write costs tens of seconds - and the reversed-sections
+		// file below gives the race-built checks the same multi-read filter pass for nothing)
 		// one externally written file whose block filter region spans several read chunks
 		// (about 1 MiB per section): a failed read can then hit the second or a later chunk,
 		// after some of the file's blocks have already been evaluated
@@ -368,6 +382,22 @@ func buildScriptWorld(rc *RunCtx, i int) (*scriptWorld, error) {
 		}
 		sw.d.Ext = append(sw.d.Ext, xd)
 		sw.bigRegion = true
+	}
+	if i%6 == 2 {
+		// a cheap way to the same situation (affordable under the race detector, so it runs in
+		// every tier): an externally written file whose filter sections are laid out in the
+		// reverse of the row-data order, so that no forward read covers two of them and the
+		// filter pass is one read per block
+		w.ExtReverseSections = true
+		xd, err := w.AddExtFile(r.Split("revsections"), 0, r.Range(12, 40), 0)
+		w.ExtReverseSections = false
+		if err != nil {
+			w.Close()
+			return nil, err
+		}
+		sw.d.Ext = append(sw.d.Ext, xd)
+		sw.bigRegion = true
+		rc.Res.Count("datasets_with_reversed_filter_sections", 1)
 	}
 	inv, err := w.Inventory()
 	if err != nil {
@@ -800,6 +830,10 @@ func runOneScript(rc *RunCtx, i, k int, sw *scriptWorld, sc *scriptCase, q *bs.Q
 			opened++
 			if h.Closes != 1 {
 				rc.Violate(i, "handle-not-closed-once", "", fmt.Sprintf("handle %d on %s was closed %d times when the cursor finished", h.ID, h.File, h.Closes), wit(h))
+				return
+			}
+			if h.CloseReturned != 1 {
+				rc.Violate(i, "handle-close-still-running", "", fmt.Sprintf("handle %d on %s: its Close call had been started but had not returned when the cursor finished (the handle is still open and a goroutine of the query is still at work)", h.ID, h.File), wit(h))
 				return
 			}
 			if h.OpsAfter > 0 || h.Overlaps > 0 {
